@@ -123,7 +123,7 @@ def check(facts, rep, tier, cfg):
                     rep.bad("C04.R5", "%s/pending#%d" % (b.path, k), "%s (%s)" % (loc_str(b.term(pb)["loc"]), b.path), "unjustified Pending on the stream's poll path")
             else:
                 rep.ok("C04.R5", b.path, "%s (%s)" % (loc_str(b.loc), b.path), "%d states" % states)
-    rep.floor("C04.R5", "MuxStream poll functions", n, 8)
+    rep.floor("C04.R5", "MuxStream poll functions", n, 8 if "std" in crate.features else 3)
 
 
 def _check_positive(facts, rep, b, bi, s, what):
